@@ -373,6 +373,13 @@ def respell(r, c, sdir, tag):
             lines.append("atomsOfGroup c02named"); model += named
         rest = list(listing)
         r.shuffle(rest)
+        # some consecutive atoms may be selected ONLY through atomNumbersRange
+        only_range = None
+        pres = sorted(set(rest))
+        runs0 = [(a, b) for a, b in zip(pres, pres[1:]) if b == a + 1]
+        if runs0 and len(pres) > 2 and r.random() < 0.5:
+            only_range = r.choice(runs0)
+            rest = [x for x in rest if x not in only_range]
         k1 = r.randint(1, len(rest))
         part1, rest = rest[:k1], rest[k1:]
         lines.append("atomNumbers " + " ".join(map(str, part1))); model += part1
@@ -389,6 +396,8 @@ def respell(r, c, sdir, tag):
         # a range over atoms already selected (pure duplicates) or extending the group when that keeps the case valid
         present = sorted(set(model))
         runs = [(a, b) for a, b in zip(present, present[1:]) if b == a + 1]
+        if only_range is not None:
+            lines.append("atomNumbersRange %d-%d" % only_range)
         if runs and r.random() < 0.5:
             a, b = r.choice(runs)
             lines.append("atomNumbersRange %d-%d" % (a, b)); model += list(range(a, b + 1))
